@@ -49,6 +49,37 @@ Proof. exact js_result_before_D7_refuted. Qed.
 Theorem C09_refuted_before_D8 : exists b, roundtrip (last_bindings_before_D8 b) <> last_bindings_before_D8 b.
 Proof. exact last_bindings_before_D8_refuted. Qed.
 
+(** the text level: a state written out as JSON text ({"node":...,"bs":{...}})
+    and parsed back is the very same state, for every state in the text
+    fragment of Model/JsonText.v (no string escapes; numbers in quarters),
+    absent bindings included; so whatever is computed from the reloaded state
+    - every later transition, binding and emission of [walk] - is what is
+    computed from the state in memory *)
+From Sheens Require Import Model.StateText Proofs.StateTextProofs Model.Action.
+Theorem C09_state_text_roundtrip :
+  forall st, plain_state st = true -> decode_state (encode_state st) = Some st.
+Proof. exact decode_encode_state. Qed.
+
+Theorem C09_reload_unobservable :
+  forall (A : Type) (process : state -> A) st,
+  plain_state st = true ->
+  option_map process (decode_state (encode_state st)) = Some (process st).
+Proof. exact reload_unobservable. Qed.
+
+Theorem C09_stored_text_determines_state :
+  forall a b, plain_state a = true -> plain_state b = true -> encode_state a = encode_state b -> a = b.
+Proof. exact encode_state_inj. Qed.
+
+Example C09_text_nonvacuous :
+  let st := mk_state "listen" (Some [("?n", JNum 10); ("xs", JArr [JNum 4; JNull; JObj [("k", JStr "v")]])]) in
+  plain_state st = true /\
+  encode_state st = "{""node"":""listen"",""bs"":{""?n"":2.5,""xs"":[1,null,{""k"":""v""}]}}"%string /\
+  decode_state (encode_state st) = Some st.
+Proof. vm_compute. auto. Qed.
+
+Print Assumptions C09_state_text_roundtrip.
+Print Assumptions C09_reload_unobservable.
+Print Assumptions C09_stored_text_determines_state.
 Print Assumptions C09_roundtrip_of_canonical_is_identity.
 Print Assumptions C09_roundtrip_yields_canonical.
 Print Assumptions C09_roundtrip_keeps_the_datum.
